@@ -6,7 +6,8 @@ conversion" a formal meaning.  Core Lean only.
 
 Expressions are the typed AST restricted to: constants, variables (locals,
 `args.x`, `this.f` — all just names with their declared, possibly refined, type),
-unary / binary / associative operators, `as`.
+unary / binary / associative operators, `as`, and elements `a[i]` of fixed-length
+arrays of scalars (locals and `this.a`).
 -/
 import WuffsVerif.Model.Interval
 
@@ -101,6 +102,9 @@ inductive Expr where
   | binary (op : BOp) (l r : Expr)
   | as (ty : Ty) (e : Expr)
   | assoc (op : BOp) (pre : Bool) (l r : Expr)
+  /-- `arr[i]` where `arr : array[len] ety` is a local or a field `this.arr`
+  (IDOpenBracket with an array-typed left-hand side) -/
+  | index (arr : String) (len : Nat) (ety : Ty) (i : Expr)
 deriving DecidableEq, Repr, Inhabited
 
 /-- `MType()` as lang/check/type.go computes it (tcheckExprUnaryOp / BinaryOp /
@@ -117,6 +121,7 @@ def typeOf : Expr → Ty
   | .assoc op _ l r =>
     if op.isLogic then ⟨.bool, none, none⟩
     else if (typeOf l).base ≠ .ideal then (typeOf l).unrefined else (typeOf r).unrefined
+  | .index _ _ ety _ => ety
 
 /-- the type a modular / saturating / shift operator works in -/
 def opBase (op : BOp) (l r : Expr) : Base :=
@@ -161,18 +166,32 @@ def binSem (op : BOp) (tb : Base) (x y : Int) : Int :=
   | .and => b2i (x != 0 && y != 0)
   | .or => b2i (x != 0 || y != 0)
 
-abbrev Env := String → Int
+/-- a storage location: a scalar variable, or element `k` of an array -/
+inductive Key where
+  | sc (n : String)
+  | cell (a : String) (k : Int)
+deriving DecidableEq, Repr, Inhabited
+
+/-- the variable / array name a location belongs to -/
+def Key.name : Key → String
+  | .sc n => n
+  | .cell a _ => a
+
+/-- the store: a value for every location (cells outside an array's length are
+never read by a safe execution) -/
+abbrev Env := Key → Int
 
 /-- ideal-integer value (no monitors) -/
 def evalI (env : Env) : Expr → Int
   | .const v => v
-  | .var n _ => env n
+  | .var n _ => env (.sc n)
   | .unary .pos e => evalI env e
   | .unary .neg e => - evalI env e
   | .unary .not e => b2i (evalI env e == 0)
   | .binary op l r => binSem op (opBase op l r) (evalI env l) (evalI env r)
   | .as _ e => evalI env e
   | .assoc op _ l r => binSem op (opBase op l r) (evalI env l) (evalI env r)
+  | .index a _ _ i => env (.cell a (evalI env i))
 
 /-- the value range of a base type (`numTypeBounds`; ±2^1000 for ideal numbers, as
 `bcheckTypeExpr1` has it) -/
@@ -204,7 +223,8 @@ def BOp.resultMonitored : BOp → Bool
   | _ => true
 
 /--
-MONITORS.  `safe env raw e`: evaluating `e` in `env` trips no monitor.  `raw` is
+MONITORS.  `safe env raw e`: evaluating `e` in `env` trips no monitor (for `a[i]`:
+`0 ≤ i < len`, the index monitor).  `raw` is
 true only for the prefix of an associative chain (no result check there: the
 language gives `a + b + c` one range check, on the whole sum).
 -/
@@ -224,15 +244,17 @@ def safe (env : Env) : Bool → Expr → Prop
     opMonitor op (opBase op l r) (evalI env l) (evalI env r) ∧
     (raw = false →
       inNatural (typeOf (.assoc op pre l r)).base (evalI env (.assoc op pre l r)))
+  | _, .index _ len _ i => safe env false i ∧ 0 ≤ evalI env i ∧ evalI env i < len
 
 /-- every variable holds a value of its declared (refined) type -/
 def varsOk (env : Env) : Expr → Prop
   | .const _ => True
-  | .var n t => inType t (env n)
+  | .var n t => inType t (env (.sc n))
   | .unary _ e => varsOk env e
   | .binary _ l r => varsOk env l ∧ varsOk env r
   | .as _ e => varsOk env e
   | .assoc _ _ l r => varsOk env l ∧ varsOk env r
+  | .index a _ ety i => varsOk env i ∧ ∀ k, inType ety (env (.cell a k))
 
 /-- `Expr.Mentions` of lang/ast/eq.go -/
 def mentions (n o : Expr) : Bool :=
@@ -243,5 +265,17 @@ def mentions (n o : Expr) : Bool :=
   | .binary _ l r => mentions l o || mentions r o
   | .as _ e => mentions e o
   | .assoc _ _ l r => mentions l o || mentions r o
+  -- the array operand `arr` / `this.arr` is itself never a store target here
+  | .index _ _ _ i => mentions i o
+
+/-- does `e` read an element of the array `a`? -/
+def readsArr (e : Expr) (a : String) : Bool :=
+  match e with
+  | .const _ | .var _ _ => false
+  | .unary _ e => readsArr e a
+  | .binary _ l r => readsArr l a || readsArr r a
+  | .as _ e => readsArr e a
+  | .assoc _ _ l r => readsArr l a || readsArr r a
+  | .index b _ _ i => b == a || readsArr i a
 
 end WuffsVerif.WCore
